@@ -1,1 +1,12 @@
-//! Kani harnesses compiled as a child module of rustzx-core/src/zx/sound/beeper.rs (cfg(kani) only).
+//! Kani-only child module of rustzx-core/src/zx/sound/beeper.rs (cfg(kani)).
+#![allow(dead_code)]
+use super::*;
+
+pub(crate) fn levels(b: &ZXBeeper) -> (bool, bool) {
+    (b.ear, b.mic)
+}
+
+pub(crate) fn set_levels(b: &mut ZXBeeper, ear: bool, mic: bool) {
+    b.ear = ear;
+    b.mic = mic;
+}
